@@ -302,6 +302,24 @@ func Main(t *testing.T, chk *Check) {
 	switch cfg.Mode {
 	case "run":
 		runShard(t, chk, cfg, res, start)
+	case "hashes":
+		// determinism self-test: one line per case with everything that must be identical across runs
+		var lines []string
+		for i := 0; i < cfg.MaxCases; i++ {
+			cs := CaseSeed(cfg.Seed, cfg.Shard, cfg.FirstCase+i)
+			tape := simrt.NewTape(cs)
+			c := runCase(t, chk, tape, cs, cfg, res, false)
+			v := ""
+			if c.viol != nil {
+				v = c.viol.FP()
+			}
+			h := fnv.New64a()
+			fmt.Fprintf(h, "%v", tape.Rec)
+			lines = append(lines, fmt.Sprintf("%d tape=%x/%d hashes=%x steps=%d outcome=%s viol=%s sub=%d", cs, h.Sum64(), len(tape.Rec), c.hashes, c.steps, c.outcome, v, c.subEvals))
+			res.Cases++
+		}
+		res.Errors = nil
+		res.HashLines = lines
 	case "replay":
 		rp := loadReplay(t, cfg.TapeFile)
 		tape := simrt.ReplayTape(rp.Tape)
